@@ -532,7 +532,13 @@ pub fn eval(c: &Case, tmp: &PathBuf) -> Result<(), String> {
                 let mut s = VectorSource::new(r.clone());
                 // the first `pre + i % 2` elements were consumed by somebody else
                 let k = (pre + i % 2).min(r.len());
-                for j in 0..k { if MergeSource::next(&mut s) != Some(r[j]) { return Err(format!("VectorSource::next: element {} of source {} wrong", j, i)); } }
+                for j in 0..k {
+                    if MergeSource::peek(&s) != Some(&r[j]) || MergeSource::is_empty(&s) || s.remaining_hint() != Some(r.len() - j) {
+                        return Err(format!("VectorSource: peek / is_empty / remaining_hint wrong before element {} of source {}", j, i));
+                    }
+                    if MergeSource::next(&mut s) != Some(r[j]) { return Err(format!("VectorSource::next: element {} of source {} wrong", j, i)); }
+                }
+                if MergeSource::is_empty(&s) != (k == r.len()) || MergeSource::peek(&s) != r.get(k) { return Err(format!("VectorSource: is_empty / peek wrong after {} reads of source {}", k, i)); }
                 if s.remaining() != &r[k..] { return Err(format!("VectorSource::remaining after {} reads: got {}", k, show(s.remaining()))); }
                 left.extend_from_slice(&r[k..]);
                 srcs.push(s);
@@ -984,7 +990,7 @@ pub fn cases(r: &mut Rng, thorough: bool, out: &mut Vec<Case>) {
             for (cell, bits) in [("adv/i64", 64u32), ("adv/k16", 16), ("adv/rec", 40), ("adv/nopar", 32)] {
                 let pt = *r.pick(&[4u64, 16]);
                 let it = *r.pick(&[0u64, 4, 16]);
-                let mut c = Case::new(cell, &[strat, *r.pick(&[8u64, 4, 5, 11]), (rep % 2) as u64, pt, *r.pick(&[0u64, 2, 3]), it, r.below(2), 0, 0, 64 << 20, 1, 1024, 2, 64]);
+                let mut c = Case::new(cell, &[strat, *r.pick(&[8u64, 4, 5, 11]), (rep % 2) as u64, pt, *r.pick(&[0u64, 2, 3, 1 << 40, u64::MAX]), it, r.below(2), 0, 0, 64 << 20, 1, 1024, 2, 64]);
                 let n = gen_len(r, &[2 * pt as usize, 2 * pt as usize + 1, it as usize]).min(300);
                 c.xs = gen_ints(r, n, bits);
                 out.push(c);
@@ -1196,7 +1202,7 @@ pub fn cases(r: &mut Rng, thorough: bool, out: &mut Vec<Case>) {
         let (na, nb) = (r.below(10) as usize, if r.chance(1, 4) { 40 + r.below(60) as usize } else { r.below(12) as usize });
         let a = gen_sorted(r, na, strict);
         let b = gen_sorted(r, nb, strict);
-        let th = *r.pick(&[0u64, 1, 2, 32]);
+        let th = *r.pick(&[0u64, 1, 2, 32, u64::MAX, 1 << 63]);
         for f in 0..12u64 {
             for flip in [false, true] {
                 let mut c = Case::new("set/tag", &[f, th, ((k as u64 + f) % 2 == 0) as u64]);
@@ -1220,6 +1226,25 @@ pub fn cases(r: &mut Rng, thorough: bool, out: &mut Vec<Case>) {
         out.push(Case::big(cell, &[32], &[7, 65_536, seed + 141, 64, 65_537, 7]));
         out.push(Case::big("set/tag", &[f as u64, 32, (f % 2) as u64], &[7, 300, seed + 142, 64, 66_000, 7]));
         out.push(Case::big("set/tag", &[f as u64, 1, 0], &[1, 20_000, seed + 143, 64, 20_001, 1]));
+    }
+
+    // thresholds and thread counts at the top of their range, through the modelled cells
+    for k in 0..(6 * scale) {
+        let th = *r.pick(&[u64::MAX, 1 << 63, (1 << 32) + 1]);
+        let (na, nb) = (r.below(6) as usize, r.below(40) as usize);
+        for cell in ["set/ms_fast_inter", "set/ms_fast_inter2"] {
+            let mut c = Case::new(cell, &[th]);
+            c.a = gen_sorted(r, na, false);
+            c.b = gen_sorted(r, nb, false);
+            out.push(c);
+        }
+        for (cell, bits) in [("adv/u32", 32u32), ("adv/u64", 64)] {
+            let pt = *r.pick(&[2u64, 4, 8]);
+            let mut c = Case::new(cell, &[*r.pick(&[3u64, 6]), r.range(3, 8), 1, pt, *r.pick(&[u64::MAX, 1 << 40, 1 << 63]), 4, (k % 2) as u64, 0]);
+            let n = 2 * pt as usize + r.below(6) as usize;
+            c.xs = gen_ints(r, n, bits);
+            out.push(c);
+        }
     }
 
     // ---- SetOperations: one object through different operations; multiplicities; a real filter ----
